@@ -498,6 +498,23 @@ Proof.
   split; simpl; congruence.
 Qed.
 
+(** the account-paid RPCs touch nothing but the account balance, and debit exactly the
+    cost exactly when the request is valid, the sector is stored and the balance suffices *)
+Theorem account_rpc_model h valid has cost :
+  do_acct h valid has cost =
+  (if valid && has && (cost <=? h_account h)%N
+   then Some (mk_host (h_roots h) (h_rev h) (h_account h - cost)) else None).
+Proof.
+  unfold do_acct. destruct valid, has; simpl; try done.
+  destruct (N.ltb_spec (h_account h) cost), (N.leb_spec cost (h_account h)); (done || lia).
+Qed.
+
+Lemma do_acct_ok h valid has cost h' :
+  committed_ok h → do_acct h valid has cost = Some h' → committed_ok h'.
+Proof.
+  intros Hc. rewrite account_rpc_model. destruct (_ && _ && _); [|done]. by intros [= <-].
+Qed.
+
 Lemma on_sig_ok h p valid h' :
   committed_ok h → pending_ok h p → on_sig h p valid = Some h' → committed_ok h'.
 Proof.
@@ -516,13 +533,15 @@ Proof.
   intros [Hc Hp]. destruct s as [h ph]. simpl in *.
   destruct ph as [|p|]; destruct m as [rq|valid]; unfold step; simpl; try (by split).
   - (* a request on a fresh stream *)
-    destruct rq as [idxs lk ch pr u|sectors lk ch pr u|off len lk pr sg u].
+    destruct rq as [idxs lk ch pr u|sectors lk ch pr u|off len lk pr sg u|av ah cost].
     + destruct (begin_free Copied h idxs lk ch pr u) as [[h' p]|] eqn:E; simpl; [|by split].
       apply begin_free_ok in E as [-> ?]. by split.
     + destruct (begin_append h sectors lk ch pr u) as [[o [p|]]|] eqn:E; simpl; try (by split).
       split; [done|]. by eapply begin_append_ok.
     + destruct (do_roots h off len lk pr sg u) as [[h' o]|] eqn:E; simpl; [|by split].
       split; [|done]. by eapply do_roots_ok.
+    + destruct (do_acct h av ah cost) as [h'|] eqn:E; simpl; [|by split].
+      split; [|done]. by eapply do_acct_ok.
   - (* the renter's signature *)
     destruct (on_sig h p valid) as [h'|] eqn:E; simpl; [|by split].
     split; [|done]. by eapply on_sig_ok.
@@ -551,11 +570,12 @@ Proof. done. Qed.
 (** unless a valid renter signature arrives, nothing the renter sends (or fails to send)
     changes roots, revision or balances *)
 Lemma step_unchanged s m :
-  ¬ carries_valid_sig (EMsg m) → hs_host (fst (step Copied s m)) = hs_host s.
+  ¬ may_commit (EMsg m) → hs_host (fst (step Copied s m)) = hs_host s.
 Proof.
   intros Hn. destruct s as [h ph].
   destruct ph as [|p|]; destruct m as [rq|valid]; unfold step; simpl; try done.
-  - destruct rq as [idxs lk ch pr u|sectors lk ch pr u|off len lk pr sg u].
+  - destruct rq as [idxs lk ch pr u|sectors lk ch pr u|off len lk pr sg u|av ah cost];
+      [| | |destruct av, ah; simpl; solve [done|by destruct Hn]].
     + destruct (begin_free Copied h idxs lk ch pr u) as [[h' p]|] eqn:E; simpl; [|done].
       by apply begin_free_copied in E as (-> & _).
     + destruct (begin_append h sectors lk ch pr u) as [[o [p|]]|]; done.
@@ -572,7 +592,7 @@ Proof.
 Qed.
 
 Theorem abort_is_noop evs : ∀ s,
-  Forall (λ e, ¬ carries_valid_sig e) evs → hs_host (exec Copied s evs) = hs_host s.
+  Forall (λ e, ¬ may_commit e) evs → hs_host (exec Copied s evs) = hs_host s.
 Proof.
   unfold exec. induction evs as [|e evs IH]; intros s Hf; [done|].
   apply Forall_cons in Hf as [He Hf]. simpl. rewrite IH by done.
@@ -592,7 +612,7 @@ Example abort_is_noop_ex :
   committed_ok host3 ∧
   let free := EMsg (MReq (FreeReq [0] true true true usage1)) in
   let app := EMsg (MReq (AppendReq [(9, true)]%N true true true usage1)) in
-  Forall (λ evs, Forall (λ e, ¬ carries_valid_sig e) evs ∧
+  Forall (λ evs, Forall (λ e, ¬ may_commit e) evs ∧
                  hs_host (exec Copied (init host3) evs) = host3)
     [ [ENew]; [ENew; free]; [ENew; free; EMsg (MSig false)];
       [ENew; app]; [ENew; app; EMsg (MSig false)]; [ENew; free; ENew; app; ENew] ] ∧
@@ -609,7 +629,7 @@ Qed.
     the committed root (finding F6) *)
 Theorem abort_prefix_refuted :
   ∃ h evs,
-    committed_ok h ∧ Forall (λ e, ¬ carries_valid_sig e) evs ∧
+    committed_ok h ∧ Forall (λ e, ¬ may_commit e) evs ∧
     h_roots h = [1; 2; 3]%N ∧
     h_roots (hs_host (exec Shared (init h) evs)) = [3; 2; 3]%N ∧
     h_rev (hs_host (exec Shared (init h) evs)) = h_rev h ∧
@@ -944,3 +964,18 @@ Proof.
   - match goal with H : negb (bool_decide (off + len ≤ _)) = false |- _ =>
       apply negb_false_iff, bool_decide_eq_true in H end. done.
 Qed.
+
+(** non-vacuity of the account model; and a failed account-paid RPC is covered by
+    [abort_is_noop]: neither an unknown sector nor an invalid request may commit *)
+Example account_rpc_model_ex :
+  do_acct host3 true true 7 = Some (mk_host (h_roots host3) (h_rev host3) 43) ∧
+  do_acct host3 true false 7 = None ∧ do_acct host3 false true 7 = None ∧
+  do_acct host3 true true 51 = None.
+Proof. by vm_compute. Qed.
+
+Example failed_account_rpc_is_noop_ex :
+  Forall (λ e, ¬ may_commit e)
+    [ENew; EMsg (MReq (AcctReq true false 7)); ENew; EMsg (MReq (AcctReq false true 7))] ∧
+  hs_host (exec Copied (init host3)
+    [ENew; EMsg (MReq (AcctReq true false 7)); ENew; EMsg (MReq (AcctReq false true 7))]) = host3.
+Proof. split; [no_valid_sig|by vm_compute]. Qed.
